@@ -6,6 +6,8 @@ import MutagenModel.Spec.Info.MonkeysAudio
 import MutagenModel.Spec.Info.OptimFROG
 import MutagenModel.Spec.Info.TrueAudio
 import MutagenModel.Spec.Info.Tak
+import MutagenModel.Spec.Info.Musepack
+import MutagenModel.Spec.Info.Aac
 import Driver.Util
 namespace Driver
 open Mutagen Mutagen.Info
@@ -74,6 +76,43 @@ def takFields (a : Args) : Spec.Tak.Fields :=
     hasExtension := a.nat "hasext", ext := a.bytes "ext"
     pre := takMetas (a.str "pt") (a.str "pp"), post := takMetas (a.str "qt") (a.str "qp") }
 
+def showRG : Musepack.RG → String
+  | .absent => "-"
+  | .sv7 r => s!"7:{r}"
+  | .sv8 r => s!"8:{r}"
+
+def showBitrate : Musepack.Bitrate → String
+  | .value n => s!"v:{n}"
+  | .fromSize b => s!"s:{b}"
+
+def mpc7Fields (a : Args) : Spec.Musepack.Sv7 :=
+  { minor := a.nat "minor", frames := a.nat "frames", intensity := a.nat "is", midSide := a.nat "ms", maxBand := a.nat "maxband"
+    profile := a.nat "profile", link := a.nat "link", rateIndex := a.nat "ri", maxLevel := a.nat "maxlevel"
+    titlePeak := a.nat "tp", titleGain := a.int "tg", albumPeak := a.nat "ap", albumGain := a.int "ag"
+    trueGapless := a.nat "gapless", lastFrameSamples := a.nat "last", fastSeek := a.nat "fastseek", unused5 := a.nat "u5"
+    encoder := a.nat "enc", unused6 := a.nat "u6" }
+
+def mpc8Fields (a : Args) : Spec.Musepack.Sv8 :=
+  let mid : List Spec.Musepack.Packet :=
+    ((hexListA (a.str "mk")).zip (hexListA (a.str "mp"))).map fun (k, p) =>
+      { key := k, size := Spec.Musepack.packetSize p.length, payload := p }
+  let h0 : Spec.Musepack.Sv8 :=
+    { crc := a.nat "crc", streamVersion := a.nat "ver", samples := a.nat "samples", beginSilence := a.nat "silence"
+      rateIndex := a.nat "ri", maxBands := a.nat "maxbands", channels := a.nat "ch", midSide := a.nat "ms", blockPwr := a.nat "bp"
+      shPad := a.bytes "shpad", shSize := 0, mid := mid, rgVersion := a.nat "rgver", titleGain := a.int "tg"
+      titlePeak := a.nat "tp", albumGain := a.int "ag", albumPeak := a.nat "ap", rgPad := a.bytes "rgpad", rgSize := 0 }
+  { h0 with shSize := Spec.Musepack.packetSize h0.shPayload.length, rgSize := Spec.Musepack.packetSize h0.rgPayload.length }
+
+def adtsFields (a : Args) : Spec.Aac.Adts :=
+  let cbs := natList (a.str "cb")
+  let bfs := natList (a.str "bf")
+  let nbs := natList (a.str "nb")
+  let bodies := hexListA (a.str "bodies")
+  { id := a.nat "id", protectionAbsent := a.nat "pa", profile := a.nat "profile", sfIndex := a.nat "sfi"
+    privateBit := a.nat "priv", chanConfig := a.nat "cc", original := a.nat "orig", home := a.nat "home"
+    frames := (cbs.zip (bfs.zip (nbs.zip bodies))).map fun (c, b, n, body) =>
+      { copyrightBits := c, bufferFullness := b, nordbif := n, body := body } }
+
 def infoAParse (kind : String) (data : Bytes) (a : Args) : String :=
   match kind with
   | "WavPack" =>
@@ -94,6 +133,12 @@ def infoAParse (kind : String) (data : Bytes) (a : Args) : String :=
         | none => "-"
         | some (ma, mi, pa) => hexStrA s!"TAK {ma}.{mi}.{pa}".toList
       s!"channels={i.channels} sample_rate={i.sampleRate} bits_per_sample={i.bitsPerSample} length={showRatioA i.length} encoder_info={enc}"
+  | "Musepack" =>
+    showResA (Musepack.parse data) fun i =>
+      s!"version={i.version} channels={i.channels} sample_rate={i.sampleRate} length={showRatioA i.length} bitrate={showBitrate i.bitrate} title_gain={showRG i.titleGain} title_peak={showRG i.titlePeak} album_gain={showRG i.albumGain} album_peak={showRG i.albumPeak}"
+  | "AAC" =>
+    showResA (Aac.parse data) fun i =>
+      s!"channels={i.channels} sample_rate={i.sampleRate} bitrate={showRatioA i.bitrate} length={showRatioA i.length} type={if i.adif then "ADIF" else "ADTS"}"
   | _ => "bad-op"
 
 def infoABuild (kind : String) (a : Args) : String :=
@@ -116,6 +161,15 @@ def infoABuild (kind : String) (a : Args) : String :=
   | "TAK" =>
     let h := takFields a
     s!"ok v={hexField (Spec.Tak.build h)} valid={if decide h.OK then 1 else 0}"
+  | "MPC_SV7" =>
+    let h := mpc7Fields a
+    s!"ok v={hexField h.build} valid={if decide h.OK then 1 else 0}"
+  | "MPC_SV8" =>
+    let h := mpc8Fields a
+    s!"ok v={hexField h.build} valid={if decide h.OK then 1 else 0}"
+  | "AAC_ADTS" =>
+    let h := adtsFields a
+    s!"ok v={hexField (Spec.Aac.build h)} valid={if decide h.OK then 1 else 0}"
   | _ => "bad-op"
 
 def infoAOp (a : Args) : String :=
